@@ -178,6 +178,71 @@ def pad_trim_rule(ctx, p, K):
            message="padding for an odd kernel K = 2h + 1 followed by trimming for the same kernel must select exactly the original cells (and crop the mask by the same offset)")
 
 
+def _pad_alternative(m, util_call, asg) -> bool:
+    """the two assignments are the two arms of one `if`: one arm is the resize util, the other np.pad of the SAME array, taken only when neither axis shrinks, with leading
+    widths new // 2 - old // 2 (where the util puts pixel 0 of the source) and trailing widths that make up the new extent - the util's placement written as a padding"""
+    from ..forms import expr_poly
+    a_util = [a for a in asg if any(x is util_call for x in ast.walk(a.value))]
+    a_pad = [a for a in asg if a not in a_util]
+    if len(a_util) != 1 or len(a_pad) != 1:
+        return False
+    bu, bp = wire.enclosing_branches(m, a_util[0]), wire.enclosing_branches(m, a_pad[0])
+    if len(bu) != 1 or len(bp) != 1 or bu[0][0] is not bp[0][0] or bu[0][1] == bp[0][1]:
+        return False
+    pc = a_pad[0].value
+    if not (isinstance(pc, ast.Call) and norm_text(pc.func) in ("np.pad", "numpy.pad")):
+        return False
+    b = wire.kw(pc)
+    arr = b.get("array", pc.args[0] if pc.args else None)
+    pw = b.get("pad_width", pc.args[1] if len(pc.args) > 1 else None)
+    mode = b.get("mode")
+    if arr is None or pw is None or (mode is not None and norm_text(mode) not in ("'constant'", '"constant"')) or ("constant_values" in b and norm_text(b["constant_values"]) not in ("0", "0.0")):
+        return False
+    # the same data as the util receives
+    data_u = norm_text(wire.strip_np_array(wire.inline_locals(m, wire.kw(util_call).get("array_2d"))))
+    a0 = wire.inline_locals(m, arr)
+    while isinstance(a0, ast.Call) and isinstance(a0.func, ast.Attribute) and a0.func.attr == "astype":
+        a0 = a0.func.value
+    if norm_text(wire.strip_np_array(a0)) != data_u:
+        return False
+    new = norm_text(wire.inline_locals(m, wire.kw(util_call).get("resized_shape")))
+    pw = wire.inline_locals(m, pw)
+    if not (isinstance(pw, (ast.Tuple, ast.List)) and len(pw.elts) == 2 and all(isinstance(x, (ast.Tuple, ast.List)) and len(x.elts) == 2 for x in pw.elts)):
+        return False
+    src = norm_text(a0)
+    for k, (lo, hi) in enumerate((x.elts for x in pw.elts)):
+        want_lo = expr_poly(ast.parse(f"({new})[{k}] // 2 - ({src}).shape[{k}] // 2", mode="eval").body)
+        want_sum = expr_poly(ast.parse(f"({new})[{k}] - ({src}).shape[{k}]", mode="eval").body)
+        if expr_poly(lo) != want_lo or expr_poly(lo) + expr_poly(hi) != want_sum:
+            return False
+    # taken only when both extents grow or stay
+    conds = [(t, tr) for t, tr in wire.path_conds(m, a_pad[0], inline=True)]
+    need = [f"({new})[{k}] - ({src}).shape[{k}] >= 0" for k in (0, 1)]
+    from ..forms import cond_equiv
+    for nd in need:
+        if not any(tr and _same_cond(t, nd) for t, tr in conds):
+            return False
+    return True
+
+
+def _same_cond(a: str, b: str) -> bool:
+    """two comparisons `L >= 0` equal as canonical forms (either may be written `0 <= L`, `X >= Y`)"""
+    from ..forms import expr_poly
+
+    def diff(t):
+        e = ast.parse(t, mode="eval").body
+        if not (isinstance(e, ast.Compare) and len(e.ops) == 1):
+            return None
+        l, r = expr_poly(e.left), expr_poly(e.comparators[0])
+        if isinstance(e.ops[0], ast.GtE):
+            return l - r
+        if isinstance(e.ops[0], ast.LtE):
+            return r - l
+        return None
+    da, db = diff(a), diff(b)
+    return da is not None and db is not None and da == db
+
+
 def _sole_producer(ctx, rule, m, cs, rets, kwname, what):
     """the value returned under keyword `kwname` is produced by the single util call cs[0] on EVERY path (values and mask are placed by one and the same window arithmetic)"""
     ok = len(cs) == 1 and len(rets) == 1 and isinstance(rets[0].value, ast.Call)
@@ -195,6 +260,9 @@ def _sole_producer(ctx, rule, m, cs, rets, kwname, what):
                 asg = [n for n in m.body_nodes() if isinstance(n, (ast.Assign, ast.AugAssign, ast.For)) and any(isinstance(x, ast.Name) and x.id == e.id and isinstance(x.ctx, ast.Store)
                                                                                                                for t in (n.targets if isinstance(n, ast.Assign) else [n.target]) for x in ast.walk(t))]
                 chain.append(f"{e.id}:{len(asg)}")
+                if len(asg) == 2 and all(isinstance(a_, ast.Assign) for a_ in asg) and _pad_alternative(m, cs[0], asg):
+                    chain.append("np.pad with the util's own offsets where nothing is cut")
+                    return True
                 return len(asg) == 1 and isinstance(asg[0], ast.Assign) and not wire.enclosing_branches(m, asg[0]) and flows(asg[0].value, depth + 1)
             if isinstance(e, ast.Call):
                 # the data argument of a converter / cast:  f(array_2d=X, ...), X.astype(...), np.array(X)
@@ -220,7 +288,7 @@ def class_rule(ctx, p):
     m = c.lookup("resized_from")
     callee = p.func(f"{A2}:resized_array_2d_from")
     cs = wire.calls_to(p, m, callee.key)
-    got = {k: norm_text(wire.strip_np_array(v)) for k, v in wire.kw(cs[0], callee).items()} if len(cs) == 1 else {}
+    got = {k: norm_text(wire.strip_np_array(wire.inline_locals(m, v))) for k, v in wire.kw(cs[0], callee).items()} if len(cs) == 1 else {}
     rets = wire.returns_of(m)
     kwv = wire.kwr(m, rets[0].value) if rets and isinstance(rets[0].value, ast.Call) else {}   # name-free: the mask handed on is the parent mask resized to the same new shape
     txt = {"resized_mask": kwv.get("mask")}
